@@ -35,6 +35,10 @@ func Main(args []string) int {
 			return checkC18()
 		case "C03conc":
 			return checkC03()
+		case "C13conc":
+			return checkC13()
+		case "C14conc":
+			return checkC14conc()
 		}
 	case "replay":
 		if len(args) < 2 {
@@ -47,7 +51,7 @@ func Main(args []string) int {
 		}
 		return racePass(args[1])
 	}
-	fmt.Fprintln(os.Stderr, "usage: ed check C15|C10conc|C05mon|C18atom|C03conc | ed replay <file> | ed racepass <id> | ed worker")
+	fmt.Fprintln(os.Stderr, "usage: ed check C15|C10conc|C05mon|C18atom|C03conc|C13conc|C14conc | ed replay <file> | ed racepass <id> | ed worker")
 	return 2
 }
 
@@ -805,6 +809,24 @@ func checkSimple(prop, harness, evName string) int {
 		if tier == "thorough" {
 			levels = append(levels, Bounds{4, 0, 4})
 		}
+	case "C14conc":
+		for _, cf := range c14Configs(tier) {
+			cf := cf
+			jobs = append(jobs, Job{Harness: harness, C14: &cf})
+		}
+		levels = []Bounds{{0, 0, 0}, {1, 0, 1}, {2, 0, 2}}
+		if tier == "thorough" {
+			levels = append(levels, Bounds{3, 0, 3}, Bounds{4, 0, 4})
+		}
+	case "C13conc":
+		for _, cf := range c13Configs(tier) {
+			cf := cf
+			jobs = append(jobs, Job{Harness: harness, C18: &cf})
+		}
+		levels = []Bounds{{0, 0, 0}, {1, 0, 1}, {2, 0, 2}, {3, 0, 3}}
+		if tier == "thorough" {
+			levels = append(levels, Bounds{4, 0, 4}, Bounds{5, 0, 5})
+		}
 	case "C18atom":
 		for _, cf := range c18Configs(tier) {
 			cf := cf
@@ -932,12 +954,18 @@ func simpleAssumptions(h string) []string {
 			"oracle inside the stub data path: when the FIRST replica call of a write/sync/unmap operation arrives at a replica, the number of RW entries of the controller's replica list at that moment (not the cached RWReplicaCount) must be >= RF/2+1; the other calls of the same MultiWriterAt fan-out belong to the same admission; an operation refused as read-only must not have reached any replica",
 			"calls are attributed to operations by payload byte (write), offset (unmap), and by being the only sync of the configuration; failing calls fail before being applied on the chosen replica",
 		}
-	case "C18atom":
+	case "C18atom", "C13conc":
 		return []string{
 			"real controller.Controller (whole package under the scheduler: Controller.RWMutex, MultiWriterAt/replicator fan-out goroutines and wait groups, Controller.monitoring goroutines) with real *remote.Remote backends whose REST and data calls go in-process to engine E-B's model replica nodes (bound to the real replica by E-B's conformance check)",
 			"each execution builds its own cluster inside the scheduler (register x2, start, add+sync+verify) without exploring that prefix; then the calls run concurrently; map iterations of package controller are in key order",
 			"reference = every sequential order of the same calls, each run to quiescence, AddReplica counting as two events (check+factory.Create | attach) as in E-B's event alphabet; monitor failure = an error put on the backend's monitor channel; the StopMonitoring branch of monitorPing is played by a stub thread",
 			"outcome = per-call results (ok/err, n, data digest) + canonical final state (controller membership, modes, ReadOnly, RW count, checkpoint, reader/writer counts; every node's state, mode, revision counter, chain with generated names renamed, checkpoint, data digest)",
+		}
+	case "C14conc":
+		return []string{
+			"a real replica.Server on a scratch directory (created, opened RW, two snapshots, three written blocks; or created and closed) behind the real replica/rest router; package replica runs under the scheduler: Server.RWMutex, Replica.RWMutex (Go's writer preference modelled: a Lock call announces itself, later RLock calls wait), revisionLock, rmLock are scheduling points; file-system calls and the HTTP plumbing between two points run atomically",
+			"the hole-punching goroutine is idle (reclamation off, as in a freshly started replica); its drain branch is played by a managed stub thread",
+			"each execution builds its own replica inside the scheduler (not explored), then the handlers of the configuration's requests run concurrently; oracle: every handler returns, no handler panics (a double unlock is a panic of the shimmed mutex), afterwards the server and replica locks are free and GET /v1/replicas/1 is answered 200",
 		}
 	case "C05mon":
 		return []string{
